@@ -478,6 +478,26 @@ Probe(b) ==
   /\ ndel' = ndel + 1
   /\ UNCHANGED <<tree, n>>
 
+(* The pool-facing queries of the chain (what TransactionPool asks before admitting a transaction):
+   validate_tx (inputs unspent, outputs not duplicating an unspent commitment, NRD relative lock against
+   the recent-kernel index), verify_coinbase_maturity and verify_tx_lock_height - all for the NEXT
+   block, i.e. at height(body head) + 1, whatever the header head is.                              *)
+TxQueryRes(nd, t) ==
+  LET h == Height(nd.head) + 1
+      found == \A c \in t.ins : ImplLeafOf(nd.u, nd.opos, c) # {}
+      utxo == /\ found
+              /\ \A c \in t.outs : ImplLeafOf(nd.u, nd.opos, c) = {}
+              /\ (IsNrd(t) => LET idx == nd.nrd[NrdKey(t)] IN idx = <<>> \/ h - idx[Len(idx)] >= NrdRel(t))
+      mat == /\ found
+             /\ \A c \in t.ins : \A i \in ImplLeafOf(nd.u, nd.opos, c) : nd.u.outs[i].cb => nd.u.outs[i].h + Maturity <= h
+      lock == LockH(t) <= h
+  IN [utxo |-> utxo, mat |-> mat, lock |-> lock]
+QueryTx(t) ==
+  /\ AllMinted /\ ndel < MaxDeliveries /\ ndel > 0
+  /\ last' = [k |-> "QueryTx", b |-> 0, res |-> TxQueryRes(n, t), tx |-> t]
+  /\ ndel' = ndel + 1
+  /\ UNCHANGED <<tree, n>>
+
 \* Trunk block k carries the transaction (coinbase of k-4 and the pool output 200+k-4 -> pool output
 \* 200+k) iff the commitment 200+k is in Pool, so that in a long trunk nearly every old leaf is spent
 \* and compaction really prunes (a leaf is only removed together with its spent sibling).
